@@ -29,12 +29,18 @@ def _witness(pid, record):
         return {"found": False, "error": "%s: %s" % (type(e).__name__, e)}
 
 
-def make_replay(pid, record, unit_results):
+def make_replay(pid, record, unit_results, only_if_found=False, need_prop=None):
     os.makedirs(os.path.join(VERIF, "replays"), exist_ok=True)
     key = "%s|%s|%s" % (pid, record["obligation"], record["function"])
     h = hashlib.sha1(key.encode()).hexdigest()[:10]
     path = os.path.join(VERIF, "replays", "%s-%s.json" % (pid, h))
     w = _witness(pid, record)
+    if need_prop and w and w.get("found"):
+        props = [x.strip() for x in str(w.get("props", "")).split(",") if x.strip()]
+        if need_prop not in props:
+            w = {"found": False, "note": "a failing input was found but it contradicts %s, not %s" % (props, need_prop), "other": w}
+    if only_if_found and not (w and w.get("found")):
+        return None, False
     doc = {
         "property": pid,
         "obligation": record["obligation"],
